@@ -29,6 +29,22 @@ Definition run1 (kind : nat) (ev : list (nat * Z)) (tmax : float) (exact : bool)
 
 (* a sequence of integrate calls on one simulation (Model.integrate_seq: t, dt, steps_done carried over; stops at
    the first call that does not return SUCCESS) *)
+(* particles present at the boundary after k steps: all of them vanish at boundary [gone] (None: never) *)
+Definition np_of (gone : option nat) (k : nat) : bool :=
+  match gone with Some g => Nat.ltb k g | None => true end.
+
+Definition run_seq_np (kind : nat) (ev : list (nat * Z)) (gone : option nat) (exact : bool) (t0 dt0 : float) (steps0 : nat)
+         (fuel : nat) (targets : list float) : list float * Z * nat :=
+  match targets with
+  | [] => ([t0; dt0], 0%Z, steps0)
+  | _ =>
+    match integrate_seq_np FNum c1em12f c1em200f (stepper_of kind) (hb_of ev) (np_of gone) exact fuel targets
+                        (mkSt t0 dt0 0 0%Z steps0 dt0) with
+    | Some s => ([t s; dt s; dtld s], status s, steps s)
+    | None => ([], (-99)%Z, O)
+    end
+  end.
+
 Definition run_seq (kind : nat) (ev : list (nat * Z)) (exact : bool) (t0 dt0 : float) (steps0 : nat)
          (fuel : nat) (targets : list float) : list float * Z * nat :=
   match targets with
